@@ -550,7 +550,11 @@ def check_C05(tier):
             obs.append(K.Ob("BASE10_SMALL_INT_POWERS = 10^i", all(v == 10 ** i for i, v in enumerate(sint)), "%d entries" % len(sint),
                             "X:compact integer powers equal the default configuration's SMALL_INT_POW10 definition (10^i)"))
         rep.add(cfg, obs)
-    results = run_jobs(_cutoff_jobs(cl))
+    # the two implementations of the middle stage must honour the same contract towards their callers: dropped digits are accounted for
+    # (both), and the compact-only error window sits at the bit round() rounds at
+    sjobs = [{"config": c, "mode": "dbg", "model": "valid", "kind": "truncflag", "target": fty} for c in cl for fty in ("f32", "f64")]
+    sjobs += [{"config": c, "mode": "dbg", "model": "valid", "kind": "window", "target": fty} for c in cl if "compact" in c for fty in ("f32", "f64")]
+    results = run_jobs(_cutoff_jobs(cl) + sjobs)
     _e4_report(rep, "C11", results, lambda j: "%s early-outs" % j["config"], {"%s early-outs" % c: fx[(c, "rel")] for c in cl},
                fn_filter=lambda o: o["kind"].startswith("post:"), floor_per_group=3)
     rep.analysed = {"configurations": cl}
@@ -559,7 +563,9 @@ def check_C05(tier):
         "other",
         "Sibling contracts across feature configurations: every constant with the same name evaluates to the same value in all analysed "
         "configurations; the configuration-specific tables (Eisel-Lemire / small tables vs Bellerophon) each equal their definitions and their cut-offs "
-        "imply the same zero/infinity decisions.",
+        "imply the same zero/infinity decisions; both implementations of the middle stage account for dropped digits (lemire: w and w+1 evaluated and "
+        "compared; bellerophon: estimate of at least one significand unit), and the compact-only error window sits at the width round() shifts by, "
+        "on every exponent class.",
         [A_TOOL, A_TARGET],
     )
 
